@@ -301,3 +301,150 @@ def check_solve_is_read_only(ctx: Ctx, oid: str):
             elif isinstance(n, ast.Call) and isinstance(n.func, ast.Attribute) and n.func.attr in ("append", "add", "update", "pop", "setdefault", "clear", "extend", "insert", "remove") and ast.unparse(n.func.value).startswith("self."):
                 writes.append((f, n))
     ctx.ob(oid, "R27 WRITE-OWNERSHIP", writes[0][0] if writes else start, "nothing on the solve path writes a field of the model", not writes, f"`{ast.unparse(writes[0][1])[:60]}` in {writes[0][0].qualname}: state kept on the model by one solve is reused by the next although variables or constraints may have been added in between" if writes else "", node=writes[0][1] if writes else start.node)
+
+
+def check_constraint_table(ctx: Ctx, oid: str):
+    """Producer/consumer agreement of the constraint and expression tuples (position by position).
+    (a) a named constructor Model.<c>(p1..pk) returns (tag, p1, .., pk) in declaration order and the encoder's
+        dispatcher hands constraint[1..k] in that order to an _encode_* whose parameters carry the same names;
+    (b) the arithmetic operators put `self` where the flattener reads the positive operand: sub -> (self, other),
+        rsub -> (self, other) read as other - self, and the flattener negates exactly the subtrahend."""
+    cp = ctx.repo.module("cp")
+    enc = ctx.repo.module("cp_encoder")
+    disp = ctx.func("cp_encoder", "SATEncoder._encode_constraint")
+    arms = {}
+    n_ = disp.node.body
+    chain = next((x for x in n_ if isinstance(x, ast.If) and "kind" in names_in(x.test)), None)
+    while chain is not None:
+        t = chain.test
+        if isinstance(t, ast.Compare) and isinstance(t.comparators[0], ast.Constant):
+            calls = [c for st_ in chain.body for c in ast.walk(st_) if isinstance(c, ast.Call) and isinstance(c.func, ast.Attribute) and c.func.attr.startswith("_encode_")]
+            arms[t.comparators[0].value] = calls
+        chain = chain.orelse[0] if len(chain.orelse) == 1 and isinstance(chain.orelse[0], ast.If) else None
+    ctx.floor("arms of the encoder's constraint dispatcher", len(arms), 10)
+
+    def arg_index(a):
+        t = ast.unparse(a)
+        for w in ("list(", "tuple("):
+            if t.startswith(w) and t.endswith(")"):
+                t = t[len(w):-1]
+        return int(t[len("constraint["):-1]) if t.startswith("constraint[") and t[len("constraint["):-1].isdigit() else None
+
+    n_ctor = 0
+    for q, f in sorted(cp.funcs.items()):
+        if not q.startswith("Model.") or q.count(".") != 1:
+            continue
+        rets = [r for r in own_nodes(f.node) if isinstance(r, ast.Return) and isinstance(r.value, ast.Tuple) and r.value.elts and isinstance(r.value.elts[0], ast.Constant) and isinstance(r.value.elts[0].value, str)]
+        if len(rets) != 1:
+            continue
+        tag = rets[0].value.elts[0].value
+        params = [p for p in f.params if p != "self"]
+        n_ctor += 1
+        got = []
+        for e in rets[0].value.elts[1:]:
+            t = ast.unparse(e)
+            for w in ("tuple(", "list("):
+                if t.startswith(w) and t.endswith(")"):
+                    t = t[len(w):-1]
+            got.append(t)
+        ctx.ob(oid, "R18 table", f, f"constructor of `{tag}` stores its arguments in declaration order", got == params, f"returns ({tag!r}, {', '.join(got)}) for parameters {params}", node=rets[0])
+        calls = arms.get(tag)
+        ok = calls is not None and len(calls) == 1
+        why = "no arm in the encoder's dispatcher" if calls is None else ""
+        if ok:
+            c = calls[0]
+            idx = [arg_index(a) for a in c.args]
+            g = enc.funcs.get(f"SATEncoder.{c.func.attr}")
+            gp = [p for p in g.params if p != "self"] if g is not None else []
+            ok = idx == list(range(1, len(params) + 1)) and gp == params
+            why = f"dispatcher passes positions {idx} to {c.func.attr}({', '.join(gp)})"
+        ctx.ob(oid, "R18 table", disp, f"`{tag}`: the dispatcher hands the stored arguments, in order, to an encoder with the same parameters", ok, why, node=calls[0] if calls else disp.node)
+    ctx.floor("named constraint constructors", n_ctor, 7)
+    # comparison operators of IntVar: (tag, self, other) consumed as (constraint[1], constraint[2])
+    for tag in ("eq_const", "ne_const", "eq_var", "ne_var"):
+        calls = arms.get(tag) or []
+        ok = len(calls) == 1 and [arg_index(a) for a in calls[0].args] == [1, 2] and calls[0].func.attr == f"_encode_{tag}"
+        prod = [r for q, f in cp.funcs.items() if q in ("IntVar.__eq__", "IntVar.__ne__") for r in own_nodes(f.node) if isinstance(r, ast.Return) and isinstance(r.value, ast.Tuple) and ast.unparse(r.value.elts[0]) == repr(tag)]
+        okp = len(prod) == 1 and [ast.unparse(e) for e in prod[0].value.elts[1:]] == ["self", "other"]
+        ctx.ob(oid, "R18 table", disp, f"`{tag}`: produced as (self, other), consumed in that order", ok and okp, "", node=calls[0] if calls else disp.node)
+    # arithmetic operators
+    n_ops = 0
+    for cls, me in (("IntVar", "self"), ("Expr", "self.data")):
+        for op in ("__sub__", "__rsub__", "__add__", "__radd__", "__mul__", "__rmul__"):
+            f = cp.funcs.get(f"{cls}.{op}")
+            if f is None:
+                continue
+            for r in own_nodes(f.node):
+                if not (isinstance(r, ast.Return) and isinstance(r.value, ast.Call) and ast.unparse(r.value.func) == "Expr" and isinstance(r.value.args[0], ast.Tuple)):
+                    continue
+                tup = r.value.args[0]
+                tag = tup.elts[0].value
+                a1, a2 = ast.unparse(tup.elts[1]), ast.unparse(tup.elts[2])
+                n_ops += 1
+                if op == "__sub__":
+                    ok = (tag == "sub" and a1 == me and a2 in ("other", "other.data")) or (tag == "add" and a1 == me and a2 == "-other")
+                elif op == "__rsub__":
+                    ok = tag == "rsub" and a1 == me and a2 == "other"
+                elif op in ("__add__", "__radd__"):
+                    ok = tag == "add" and me in (a1, a2)
+                else:
+                    ok = tag == "mul" and a1 == me and a2 == "other"
+                ctx.ob(oid, "R18 table", f, f"{cls}.{op} builds ({tag!r}, ..) with `self` in the position the flattener reads as the positive operand", ok, f"({tag!r}, {a1}, {a2})", node=r)
+    ctx.floor("arithmetic operator productions", n_ops, 10)
+    fl = ctx.func("cp", "Model._flatten_sum.flatten")
+    t = ast.unparse(fl.node)
+    ok = all(x in t for x in ("e[0] == 'sub':\n        flatten(e[1], k)\n        flatten(e[2], -k)", "e[0] == 'rsub':\n        flatten(e[2], k)\n        flatten(e[1], -k)", "e[0] == 'add':\n        flatten(e[1], k)\n        flatten(e[2], k)", "e[0] == 'mul':\n        flatten(e[1], k * e[2])"))
+    ctx.ob(oid, "R18 table", fl, "the flattener reads sub as e[1] - e[2], rsub as e[2] - e[1], add as e[1] + e[2], mul as e[1] * e[2]", ok, "", node=fl.node)
+
+
+SMALL_ENCODERS = {
+    # function: fragments that together are its whole meaning (compared on the surface-normalised text)
+    "SATEncoder._encode_exactly_one": ["self._clauses.append(lits)", "for a, b in combinations(lits, 2):\n        self._clauses.append([-a, -b])"],
+    "SATEncoder._encode_at_most_one": ["for a, b in combinations(lits, 2):\n        self._clauses.append([-a, -b])"],
+    "SATEncoder._encode_eq_const": ["if val in var.bool_vars:\n        self._clauses.append([var.bool_vars[val]])\n    else:\n        self._clauses.append([])"],
+    "SATEncoder._encode_ne_const": ["if val in var.bool_vars:\n        self._clauses.append([-var.bool_vars[val]])"],
+    "SATEncoder._encode_eq_var": [
+        "common = set(var1.bool_vars.keys()) & set(var2.bool_vars.keys())",
+        "self._clauses.append([-var1.bool_vars[val], var2.bool_vars[val]])",
+        "self._clauses.append([var1.bool_vars[val], -var2.bool_vars[val]])",
+        "for val in set(var1.bool_vars.keys()) - common:\n        self._clauses.append([-var1.bool_vars[val]])",
+        "for val in set(var2.bool_vars.keys()) - common:\n        self._clauses.append([-var2.bool_vars[val]])",
+    ],
+    "SATEncoder._encode_ne_var": ["common = set(var1.bool_vars.keys()) & set(var2.bool_vars.keys())", "for val in common:\n        self._clauses.append([-var1.bool_vars[val], -var2.bool_vars[val]])"],
+}
+DFS_ARMS = {
+    "eq_const": ["if val not in domains[var.name]:\n            return False", "domains[var.name] = {val}"],
+    "ne_const": ["domains[var.name].discard(val)"],
+    "eq_var": ["common = domains[var1.name] & domains[var2.name]", "if not common:\n            return False", "domains[var1.name] = common", "domains[var2.name] = common.copy()"],
+    "ne_var": ["if len(domains[var1.name]) == 1:\n            val = next(iter(domains[var1.name]))\n            domains[var2.name].discard(val)", "if len(domains[var2.name]) == 1:\n            val = next(iter(domains[var2.name]))\n            domains[var1.name].discard(val)"],
+}
+
+
+def check_small_semantics(ctx: Ctx, oid: str, encoder: bool = True, dfs: bool = True):
+    """The unit-sized encoders and propagators *are* their specification: polarity, operand and direction of each clause
+    / domain update are compared with the table above (a flipped sign or a var1/var2 mix-up changes the model set)."""
+    if encoder:
+        for q, frags in SMALL_ENCODERS.items():
+            f = ctx.func("cp_encoder", q)
+            t = ast.unparse(f.node)
+            n_app = t.count("self._clauses.append(")
+            want = sum(fr.count("self._clauses.append(") for fr in frags)
+            ctx.ob(oid, "R18 table", f, f"{q.split('.')[1]} emits exactly the clauses of its definition", all(fr in t for fr in frags) and n_app == want, f"{n_app} emission site(s), {want} expected", node=f.node)
+    if dfs:
+        pc = ctx.func("cp", "Model._propagate_constraint")
+        chain = next((x for x in pc.node.body if isinstance(x, ast.If) and "kind" in names_in(x.test)), None)
+        seen = {}
+        while chain is not None:
+            t = chain.test
+            if isinstance(t, ast.Compare) and isinstance(t.comparators[0], ast.Constant):
+                seen[t.comparators[0].value] = chain
+            chain = chain.orelse[0] if len(chain.orelse) == 1 and isinstance(chain.orelse[0], ast.If) else None
+        for tag, frags in DFS_ARMS.items():
+            arm = seen.get(tag)
+            txt = "\n".join(ast.unparse(x) for x in arm.body) if arm is not None else ""
+            txt = txt.replace("\n    ", "\n            ")  # fragments are written with the arm's indentation
+            body_ok = arm is not None and all(fr.replace("\n            ", "\n    ") in "\n".join(ast.unparse(x) for x in arm.body) for fr in frags)
+            ctx.ob(oid, "R18 table", pc, f"DFS propagation of `{tag}` narrows exactly as the constraint demands", body_ok, "", node=arm if arm is not None else pc.node)
+        pad = ctx.func("cp", "Model._propagate_all_different")
+        t = ast.unparse(pad.node)
+        ctx.ob(oid, "R18 table", pad, "DFS all_different removes an assigned value from every other variable of the constraint", "if len(domains[var.name]) == 1:\n            val = next(iter(domains[var.name]))\n            for other in variables:\n                if other is not var:\n                    domains[other.name].discard(val)" in t and "for var in variables:" in t, "", node=pad.node)
